@@ -22,6 +22,19 @@ def boardGame (z : ZTable) (evalKey : Position → Color → Int) : Game World :
     inCheck := fun w => (w.cur 0).pos.isChecked (w.board 0).turn
     eval := fun w => evalKey (w.cur 0).pos (w.board 0).turn }
 
+/-- The same game with an evaluation that may read the whole board (TUROCHAMP's evaluation reads `Board.HasCastled`). -/
+def boardGameW (z : ZTable) (evalKey : World → Int) : Game World :=
+  { isDraw := fun w => (w.board 0).result.outcome == .draw
+    hash := fun w => (w.cur 0).hash
+    ply := fun w => (w.board 0).ply
+    moves := fun w => (w.cur 0).pos.pseudoLegalMoves (w.board 0).turn
+    push := fun w m => w.pushMove z 0 m
+    inCheck := fun w => (w.cur 0).pos.isChecked (w.board 0).turn
+    eval := evalKey }
+
+theorem boardGame_eq_boardGameW (z : ZTable) (evalKey : Position → Color → Int) :
+    boardGame z evalKey = boardGameW z (fun w => evalKey (w.cur 0).pos (w.board 0).turn) := rfl
+
 def materialGame (z : ZTable) : Game World := boardGame z fun pos turn => f32keyOfInt (materialPawns pos turn)
 
 end Morlock.Model
